@@ -3,6 +3,8 @@
 package main
 
 import (
+	_ "golang.org/x/tools/go/ast/astutil"
+	_ "golang.org/x/tools/go/ast/inspector"
 	_ "golang.org/x/tools/go/callgraph/cha"
 	_ "golang.org/x/tools/go/callgraph/vta"
 	_ "golang.org/x/tools/go/cfg"
@@ -10,6 +12,4 @@ import (
 	_ "golang.org/x/tools/go/ssa"
 	_ "golang.org/x/tools/go/ssa/ssautil"
 	_ "golang.org/x/tools/go/types/typeutil"
-	_ "golang.org/x/tools/go/ast/astutil"
-	_ "golang.org/x/tools/go/ast/inspector"
 )
